@@ -357,7 +357,10 @@ def run_property(mod, prop, tier, seed, replay=None):
         except Exception as e:  # extractor could not read the source: obligation broken
             ctx.violation("obligation", "extract", f"ast extractor failed: {e!r}", {"step": "extract"})
     # 2. build
-    build_ok, build_log = lake_build(clean=(tier == "thorough" and os.environ.get("VERIF_CLEAN_BUILD") == "1"))
+    # only this property's obligations (and the model driver): a table that no longer checks for
+    # another property must not raise an alarm here
+    targets = ["driver"] + sorted(set(e["module"] for e in theorems_for(prop)))
+    build_ok, build_log = lake_build(targets, clean=(tier == "thorough" and os.environ.get("VERIF_CLEAN_BUILD") == "1"))
     # 3. audit
     hits = grep_forbidden()
     audit_res = audit(prop)
